@@ -36,4 +36,4 @@ Deliverables, all under {out}/ (create it):
   - patch.diff : output of `git -C {wt} diff` containing ONLY your bug-seeding change to non-test source files (must apply with `git apply` to a clean checkout of the same commit).
   - a demonstration that FAILS with your change and PASSES without it: either demo_test.go (a Go test file; say in NOTES which package directory it has to be copied into to run, and the exact go test command) or a small main program + command. The demonstration must drive the real code (exported or package-internal API), be deterministic (for interleaving bugs force the interleaving with hooks you add ONLY in the demo, e.g. by blocking a fake/stub in the middle of a call, or loop enough to make it reliable, and say so), and print/assert clearly what went wrong. The demo file itself must NOT be part of patch.diff.
   - NOTES.md : which file/function you changed and why it breaks the property; what exactly is needed for the bug to manifest (interleaving / fault point / sequence / input); the exact commands you ran and their results: (a) build+existing tests with the change (pass), (b) demo with the change (fail), (c) demo without the change, after reverting your change with `git apply -R` of your own patch (pass) - do NOT use `git stash`: the stash is shared between worktrees.
-Verify all three yourself before finishing; leave {wt} with your change applied (uncommitted) at the end. Reply with a 5-line summary (changed file, what is needed to manifest, demo command).""")
+If, while reading the code, you notice behaviour of the UNTOUCHED tree that already seems to violate the property for some input, sequence or interleaving, describe it briefly under a heading 'Aside' in NOTES.md (what input, which function, why) - do not fix it and do not build your change on it. Verify all three yourself before finishing; leave {wt} with your change applied (uncommitted) at the end. Reply with a 5-line summary (changed file, what is needed to manifest, demo command).""")
